@@ -299,6 +299,9 @@ func (vm *vm) run() error {
 		case opSETFIELD:
 			// ( x -- x )
 			name := readConst().(string)
+			if _, isChild := vm.blockStack[vm.blockTos-1].Fields[name].(Block); isChild {
+				return vm.runtimeError("field %s duplicates child block", name)
+			}
 			blockSet(name, peek(0))
 
 		case opBIND:
